@@ -40,7 +40,7 @@ DECODES = [
     dict(decode_type="multistart_greedy", num_starts=3),
     dict(decode_type="multistart_sampling", num_starts=2, temperature=1.3),
 ]
-NO_MULTISTART = {"mtsp", "svrp", "smtwtp", "fjsp", "jssp", "mdcpdp", "atsp", "op"}  # op: forced starts may be infeasible (recorded C12 finding)
+NO_MULTISTART = {"mtsp", "smtwtp", "fjsp", "jssp", "mdcpdp", "atsp"}
 
 
 def cases(tier, seed):
